@@ -1,7 +1,54 @@
 import A2Verif.Model.Hex
-/-! driver family `c08` (stub until the family is built) -/
-namespace A2Verif.Drv.C08
+import A2Verif.Model.Nibble
+/-!
+driver family `c08`
 
-def handle (_toks : List String) : String := "bad-request"
+codec ops (bytes as hex):
+* `c08 enc44 <1 byte>` → 2 bytes; `c08 dec44 <2 bytes>` → 1 byte
+* `c08 enc62 <256 bytes>` → 343 disk bytes; `c08 dec62 <343 bytes>` → `ok <256 bytes>` | `err invalid-byte` | `err bad-checksum`
+* `c08 enc53 <256 bytes>` → 411 disk bytes; `c08 dec53 <411 bytes>` → likewise
+-/
+namespace A2Verif.Drv.C08
+open A2Verif A2Verif.Hex A2Verif.Model.Nibble
+
+def bytesOk (bs : List Nat) : Bool := bs.all (· < 256)
+
+def showDec (r : Except DecErr (List Nat)) : String :=
+  match r with
+  | .ok d => "ok " ++ toHex d
+  | .error .invalidByte => "err invalid-byte"
+  | .error .badChecksum => "err bad-checksum"
+  | .error .length => "bad-request"
+
+def handleCodec (toks : List String) : Option String :=
+  match toks with
+  | ["enc44", h] => do
+    let bs ← ofHex h
+    match bs with
+    | [v] => some (toHex (encode44 v))
+    | _ => none
+  | ["dec44", h] => do
+    let bs ← ofHex h
+    match bs with
+    | [a, b] => some (toHex [decode44 a b])
+    | _ => none
+  | ["enc62", h] => do
+    let bs ← ofHex h
+    if bs.length = 256 then some (toHex (enc62 bs)) else none
+  | ["dec62", h] => do
+    let bs ← ofHex h
+    if bs.length = 343 then some (showDec (dec62 bs)) else none
+  | ["enc53", h] => do
+    let bs ← ofHex h
+    if bs.length = 256 then some (toHex (enc53 bs)) else none
+  | ["dec53", h] => do
+    let bs ← ofHex h
+    if bs.length = 411 then some (showDec (dec53 bs)) else none
+  | _ => none
+
+def handle (toks : List String) : String :=
+  match handleCodec toks with
+  | some s => s
+  | none => "bad-request"
 
 end A2Verif.Drv.C08
